@@ -700,3 +700,16 @@ def foreign_items(inv):
 
 def chars(s):
     return list(s)
+
+
+class Counts(dict):
+    """dict of counters safe to bump from worker threads."""
+
+    def __init__(self, *a, **kw):
+        import threading
+        super().__init__(*a, **kw)
+        self._lock = threading.Lock()
+
+    def inc(self, key, n=1):
+        with self._lock:
+            self[key] = self.get(key, 0) + n
